@@ -34,7 +34,7 @@ def run_mutant(prop, patch, tier):
                        capture_output=True, text=True)
     if p.returncode != 0:
       return 'patch-failed', p.stdout + p.stderr, 0.0
-    env = dict(os.environ, VERIF_REPO=dst, VP_NO_EVIDENCE='1')
+    env = dict(os.environ, VERIF_REPO=dst, VP_NO_EVIDENCE='1', VP_REPLAY_DIR=os.path.join(tmp, 'replays'))
     if os.environ.get('VP_SELFTEST_FULL') != '1':
       env['VP_FAIL_FAST'] = '1'   # stop the run at the first violation (the verdict cannot change)
     t0 = time.time()
